@@ -107,6 +107,8 @@ def run_case(case):
         return run_real(dict(case, kind=case["wkind"]))
     if case["kind"] == "endless":
         return run_endless(case)
+    if case["kind"] == "trailers":
+        return run_trailers(case)
     stream, m = build_limits(case)
     line, fields, fsize = eff_limits(case)
     cfg = penv.make_cfg(limit_request_line=case["line"], limit_request_fields=case["fields"],
@@ -320,6 +322,9 @@ def extra_cases(tier, seed, shard, nshards):
             continue
         if i % nshards == shard:
             yield {"kind": "real", "engine": "R", "wkind": k, "source": src, "second": sec}
+    for i, c in enumerate(TRAILER_CELLS):
+        if i % nshards == shard:
+            yield dict(c, kind="trailers")
     combos = list(itertools.product(sorted(ENDLESS), range(len(ENDLESS_CFGS)), BLOCKS))
     for i, (name, ci, blk) in enumerate(combos):
         if i % nshards != shard:
@@ -352,6 +357,36 @@ class Meter(object):
         out, self.pending = self.pending[:self.block], self.pending[self.block:]
         self.given += len(out)
         return out
+
+
+# trailer sections that stay within every configured limit (count <= limit_request_fields, every line <= limit_request_field_size, 0 =
+# unlimited as documented) are accepted like a head of that shape would be; only the accepting side is asserted here
+TRAILER_CELLS = [{"fields": f, "fsize": z, "n": n, "size": sz, "cut": cut}
+                 for f, z in ((100, 8190), (100, 0), (4, 100), (4, 0), (32768, 0))
+                 for n, sz in ((1, 20), (3, 90), (3, 98), (2, 4000), (2, 9000), (4, 60))
+                 for cut in (None, "in-trailers")
+                 if n <= f and (z == 0 or sz + 2 <= z)]        # (the 2-byte band around the field-size limit is not asserted: line with its CRLF)
+
+
+def run_trailers(case):
+    cfg = penv.make_cfg(limit_request_fields=case["fields"], limit_request_field_size=case["fsize"])
+    lines = ["X-T%d: " % i for i in range(case["n"])]
+    trailers = "".join(l + "t" * (case["size"] - len(l)) + "\r\n" for l in lines)       # each line is `size` bytes without its CRLF
+    head = "POST /t HTTP/1.1\r\nHost: h\r\nTransfer-Encoding: chunked\r\n\r\n5\r\nhello\r\n0\r\n"
+    stream = (head + trailers + "\r\nGET /after HTTP/1.1\r\nHost: h\r\n\r\n").encode("latin-1")
+    cuts = [len(head) + len(trailers) // 2] if case["cut"] else []
+    cuts += list(range(8192, len(stream), 8192))
+    reqs, terminal = penv.observe(stream, sorted(set(cuts)), cfg)
+    vio = []
+    ok = len(reqs) == 2 and reqs[0]["body"] == b"hello" and reqs[0]["body_error"] is None and len(reqs[0]["trailers"]) == case["n"] \
+        and reqs[1]["uri"] == "/after"
+    if not ok:
+        vio.append(Violation("within-limits-accepted", "C12/trailers-within-the-limits-refused",
+                             observed={"requests": len(reqs), "terminal": terminal, "body_error": reqs[0]["body_error"] if reqs else None,
+                                       "trailers": len(reqs[0]["trailers"]) if reqs else None, "case": case},
+                             expected="request with %d trailers, then /after" % case["n"]))
+    return Outcome(vio, True, ["kind:trailers", "fsize:%d" % case["fsize"]], key="trailers|%s" % sorted(case.items()),
+                   sample={"case": case, "terminal": terminal})
 
 
 def run_endless(case):
